@@ -612,6 +612,30 @@ class Inliner:
             for m in P.modules.values():
                 normalize(m.tree)  # what was read in at the call sites gets the same single spelling as the rest
                 ast.fix_missing_locations(m.tree)
+            # a call that only became a statement of its own through that spelling (`a, b = f(x) if c else g(x)` → two arms)
+            # is read in now; one more normalisation settles what that brought
+            P._reindex()
+            more = 0
+            self.force = True
+            for _ in range(MAX_ROUNDS):
+                new = {fi.fq: fi for fi in P.funcs.values() if self.is_new(fi)}
+                if not new:
+                    break
+                changed = sum(self._process_function(caller, new) for caller in list(P.funcs.values()))
+                more += changed
+                if not changed:
+                    break
+                P._reindex()
+            if more:
+                total += more
+                touched = {x.split(" into ")[-1].split(" for ")[-1] for x in self.inlined}
+                for fq in touched:
+                    fi = P.funcs.get(fq)
+                    if fi is not None:
+                        _settle_inlined_constants(fi.node)
+                for m in P.modules.values():
+                    normalize(m.tree)
+                    ast.fix_missing_locations(m.tree)
             for fq in touched:
                 fi = P.funcs.get(fq)
                 if fi is not None:
